@@ -69,6 +69,15 @@ type Op struct {
 type Case struct {
 	Version int  `json:"version"`
 	Ops     []Op `json:"ops"`
+	// Tail, if present: after the operations the backend sends these messages and closes the websocket the regular way
+	// (close frame, then waits for the peer's); the client starts polling WaitMs later and polls until the session is
+	// reported closed. Everything the backend sent, including what was still undelivered before, must arrive first.
+	Tail *Tail `json:"tail,omitempty"`
+}
+
+type Tail struct {
+	Msgs   []Msg `json:"msgs,omitempty"`
+	WaitMs int   `json:"wait_ms"`
 }
 
 func genMsg(t *rapid.T, version int, idx int) Msg {
@@ -146,6 +155,15 @@ func genCase(t *rapid.T) Case {
 			op.Wait = rapid.SampledFrom([]int{0, 0, 1, 10}).Draw(t, "wait")
 		}
 		c.Ops = append(c.Ops, op)
+	}
+	if rapid.IntRange(0, 2).Draw(t, "hasTail") == 0 {
+		tl := &Tail{WaitMs: rapid.SampledFrom([]int{0, 0, 2, 20, 100}).Draw(t, "tailWait")}
+		k := rapid.SampledFrom([]int{0, 1, 2, 3, 5, 9, 10, 11, 12, 25}).Draw(t, "ktail")
+		for j := 0; j < k; j++ {
+			idx++
+			tl.Msgs = append(tl.Msgs, genMsg(t, c.Version, idx))
+		}
+		c.Tail = tl
 	}
 	return c
 }
@@ -240,8 +258,16 @@ func runCase(c *Case) vh.Outcome {
 	var sentClient, sentServer, gotServer []shimrig.WSMsg
 	sendQ := make(chan shimrig.WSMsg, 2000)
 	defer close(sendQ)
+	flushed := make(chan struct{}, 1)
 	go func() {
 		for m := range sendQ {
+			if m.Data == nil && m.Binary { // marker: everything queued before has been written
+				flushed <- struct{}{}
+				continue
+			}
+			if m.Data == nil {
+				m.Data = []byte{}
+			}
 			bc.Send(m)
 		}
 	}()
@@ -325,6 +351,60 @@ func runCase(c *Case) vh.Outcome {
 		}
 		if o.Err != nil {
 			break
+		}
+	}
+	if o.Err == nil && c.Tail != nil {
+		// what the client posted must have arrived before the backend closes (a message on its way to a peer that closes is lost on any websocket)
+		for deadline := time.Now().Add(10 * time.Second); bc.NumReceived() < len(sentClient) && time.Now().Before(deadline); {
+			time.Sleep(time.Millisecond)
+		}
+		for _, m := range c.Tail.Msgs {
+			wm := shimrig.WSMsg{Binary: m.Binary, Data: m.data()}
+			sendQ <- wm
+			sentServer = append(sentServer, wm)
+			if m.Binary {
+				hasBin = true
+			} else {
+				hasText = true
+			}
+		}
+		sendQ <- shimrig.WSMsg{Binary: true} // marker
+		<-flushed
+		pendingAtClose := len(sentServer) - len(gotServer)
+		bc.Close()
+		time.Sleep(time.Duration(c.Tail.WaitMs) * time.Millisecond)
+		o.Classes = append(o.Classes, "backend-closes-at-the-end")
+		if pendingAtClose > 10 {
+			o.Classes = append(o.Classes, "backend-closes-with>10-undelivered")
+		} else if pendingAtClose > 0 {
+			o.Classes = append(o.Classes, "backend-closes-with-1..10-undelivered")
+		}
+		for n := 0; o.Err == nil; n++ {
+			res := r.Call("POST", r.ShimPath+"/poll", shimrig.IDBody(id), nil, 30*time.Second)
+			if res.Panic != nil || res.TimedOut {
+				o.Err = fmt.Errorf("poll after the backend closed did not answer: panic=%v timedOut=%v", res.Panic, res.TimedOut)
+				break
+			}
+			if res.Status != 200 {
+				if len(gotServer) < len(sentServer) {
+					o.Err = fmt.Errorf("the backend sent %d messages and then closed the websocket; %d of them were still undelivered at that moment; poll %d after the close answered %d although only %d of the %d messages had been delivered", len(sentServer), pendingAtClose, n+1, res.Status, len(gotServer), len(sentServer))
+				}
+				break
+			}
+			ms, err := decodePoll(res.Body, c.Version)
+			if err != nil {
+				o.Err = err
+				break
+			}
+			gotServer = append(gotServer, ms...)
+			if len(gotServer) > len(sentServer) {
+				o.Err = fmt.Errorf("server->client: %d messages delivered, %d sent", len(gotServer), len(sentServer))
+				break
+			}
+			o.Err = sameMsgs("server->client", gotServer, sentServer[:len(gotServer)])
+			if n > len(sentServer)+5 {
+				o.Err = fmt.Errorf("the session was still not reported closed %d polls after the backend closed it", n)
+			}
 		}
 	}
 	// drain: everything the backend sent must arrive through polls
